@@ -230,7 +230,7 @@ func TestC12(t *testing.T) {
 	if s.replay(t) {
 		return
 	}
-	rapidCheck(t, "synthetic", tierN(2000, 120000), func(rt *rapid.T) {
+	rapidCheck(t, "synthetic", tierN(8000, 120000), func(rt *rapid.T) {
 		c := genMerkleCase().Draw(rt, "case")
 		c.Mode = int(genMode().Draw(rt, "mode"))
 		s.exec(rt, "merkle", c, "synthetic/"+c.What)
